@@ -640,8 +640,9 @@ def r9(ctx: Ctx, m):
   ctx.rule(rule, 're-check after temporary release: when a method hands its'
            ' condition\'s lock away for a moment (_release_and_notify(L, ...))'
            ' and later waits on L, every path from the hand-off to the wait'
-           ' re-tests the predicate (the notification may have arrived while'
-           ' the lock was released — a lost wake-up otherwise)')
+           ' re-tests the WHOLE predicate (the notification may have arrived'
+           ' while the lock was released — a lost wake-up otherwise); for a'
+           ' consumer that is "an element is there OR the stream has ended"')
   n = 0
   for fi in m.methods():
     g = cfgm.cfg_of(fi.node)
@@ -656,11 +657,18 @@ def r9(ctx: Ctx, m):
       if not rel or not waits:
         continue
 
-      def retest(nd, tests=tests, fi=fi):
-        if any(isinstance(x, ast.Call) and isinstance(x.func, ast.Attribute)
-               and x.func.attr in tests for x in cfgm.node_exprs(nd)):
+      def retest(nd, tests=tests, fi=fi, lock=lock):
+        calls = {x.func.attr for x in cfgm.node_exprs(nd) if isinstance(x, ast.Call)
+                 and isinstance(x.func, ast.Attribute)}
+        if lock == DEQ:
+          # the consumer's predicate is "an element is there OR the stream has
+          # ended": get_nowait tests both, `.empty()` alone only the first
+          if 'get_nowait' in calls:
+            return True
+          return 'empty' in calls and done_test(fi, nd)
+        if calls & set(tests):
           return True
-        return lock == ENQ and done_test(fi, nd)
+        return done_test(fi, nd)
 
       for r_ in rel:
         n += 1
@@ -948,6 +956,9 @@ from mlmverif.selfcheck import B, OK  # noqa: E402
 
 _F = 'utils/iter_utils.py'
 VARIANTS = [
+    B('revert-recheck-done-after-handoff', _F,
+      '          if not self._queue.empty() or self.enqueue_done:\n            continue',
+      '          if not self._queue.empty():\n            continue', 'R-C04-9'),
     B('enqueue-done-true-when-nothing-started', _F,
       '    if not self._max_enqueuer:\n      return False\n    return self._enqueue_start == self._enqueue_stop == self._max_enqueuer',
       '    remaining = self._enqueue_start - self._enqueue_stop\n    return not remaining and self._enqueue_start >= self._max_enqueuer',
@@ -972,7 +983,7 @@ VARIANTS = [
        '      self._max_enqueuer = max(self._max_enqueuer, self._enqueue_start)',
        '      if self._enqueue_start > self._max_enqueuer:\n        self._max_enqueuer = self._enqueue_start'),
     B('no-recheck-after-handoff', _F,
-      '          if not self._queue.empty():\n            continue\n          if self._dequeue_lock.wait(timeout=self.timeout):',
+      '          if not self._queue.empty() or self.enqueue_done:\n            continue\n          if self._dequeue_lock.wait(timeout=self.timeout):',
       '          if self._dequeue_lock.wait(timeout=self.timeout):', 'R-C04-9'),
     B('revert-get-nowait-lock', _F,
       '    with self._dequeue_lock:\n      self._states_lock.acquire()\n      try:\n        result = self._queue.get_nowait()',
